@@ -28,10 +28,10 @@ def _has_overlap(needle: LineSpan, haystack: LineSpans) -> bool:
         # assume needle is in the center
         has_overlap = (
             span.lineno == needle.lineno
-            # needle starts before (or at) span end
-            and needle.start <= span.end
-            # needle ends after (or at) span start
-            and needle.end >= span.start
+            # needle starts before span end (end is exclusive)
+            and needle.start < span.end
+            # needle ends after span start
+            and needle.end > span.start
         )
         if has_overlap:
             return True
